@@ -97,7 +97,7 @@ if __name__ == "__main__":
     if only:
         dirs = [d for d in dirs if any(o in d for o in only)]
     bad = 0
-    with cf.ThreadPoolExecutor(12) as ex:
+    with cf.ThreadPoolExecutor(int(os.environ.get("FE_JOBS", "12"))) as ex:
         for ident, status, detail in ex.map(one, dirs):
             if status != "ok":
                 print(f"{status:8s} {ident}: {detail}")
